@@ -12,7 +12,7 @@
    final state lists the file system after every dump call (every prefix of the effect sequence).
    Every theorem quantifies over ALL plans, partition lists, retry counts and call offsets. *)
 From Coq Require Import List Bool Arith NArith.
-Require Import PV.Gen.SaveOrder PV.Model.Save PV.Proofs.Save.
+Require Import PV.Gen.SaveOrder PV.Model.Save PV.Proofs.Save PV.Proofs.SaveNames.
 Import ListNotations.
 
 (* ---- clause 1: an existing target is refused before anything is written or modified ----
@@ -123,6 +123,12 @@ Theorem C09_read_marked_dir_text : forall p m (xs : list (list bytes)) c0 r s',
   read_target bytes decode_text f = Ok (concat xs).
 Proof. exact read_marked_dir_text. Qed.
 
+(* the order on names the reader model sorts by (parts by index) IS the byte order of the real file names, for
+   the name format regenerated from both savers (part_prefix = "part-", part_width = 5), below 10^5 partitions *)
+Theorem C09_part_names_sort_by_index : forall a b, valid_name a -> valid_name b ->
+  name_leb a b = lex_leb (name_string a) (name_string b).
+Proof. exact name_order. Qed.
+
 (* ---- the tie to the source: these fail when the statement order of the savers / of runJob changes ---- *)
 Theorem C09_text_order : text_steps = [SCheckExists; SSingle; SRunJob; SMarker].
 Proof. exact text_steps_link. Qed.
@@ -187,3 +193,7 @@ Example resave_refused :
   let f0 := complete_dir _ render_text ex_parts in
   run_text no_faults 3 [[[99%N]]; []] f0 = (Err EExists, init_st f0 0 false).
 Proof. vm_compute. reflexivity. Qed.
+(* the real names: part-00007, and the bound of C09_part_names_sort_by_index is the format's own *)
+Example part_name_example :
+  name_string (NPart 7) = [112; 97; 114; 116; 45; 48; 48; 48; 48; 55]%N /\ valid_name (NPart 4321) /\ valid_name (NOther 4).
+Proof. split; [reflexivity|split]; [reflexivity|]. unfold valid_name. repeat constructor. Qed.
